@@ -68,6 +68,7 @@ pub fn preset(property: &str, tier: &str, run_seed: u64) -> SwarmCfg {
             cfg.weights.push(("crash".into(), if r.chance(1, 2) { 1 } else { 0 }));
             cfg.weights.push(("reload".into(), 8));
             cfg.weights.push(("stale_commit".into(), 2));
+            cfg.weights.push(("nm_propose".into(), 2));
             cfg.storage = *r.pick(&[StorageKind::Mem, StorageKind::Mem, StorageKind::Sql]);
             if r.chance(1, 6) {
                 cfg.scenario = "large-tree".into();
